@@ -215,6 +215,8 @@ def mk_stack(spec):
     err = None
     if spec.get("error"):
         try:
+            if spec.get("error") == "multi":
+                raise Boom("boom %s:\n  second line of the message\nthird line" % spec.get("root"))
             raise Boom("boom %s" % spec.get("root"))
         except Boom as ex:
             err = ex
@@ -295,7 +297,8 @@ def check_stack(st, problems):
 # ------------------------------------------------------------------ enumeration
 INNERS = [None, {"frames": [{"k": 5}], "root": "IN1"}, {"frames": [{"k": 6}, {"k": 7, "contexts": [{"id": 9, "description": True}]}], "leaf": True, "error": True, "root": "IN2"},
           {"frames": [], "root": "IN3"}, {"frames": [], "leaf": True, "root": "IN4"}, {"frames": [], "error": True, "root": "IN5"},
-          {"frames": [], "leaf": True, "error": True, "root": None}, {"frames": [{"k": 5, "hide": True}], "leaf": True, "root": "IN6"}]
+          {"frames": [], "leaf": True, "error": True, "root": None}, {"frames": [{"k": 5, "hide": True}], "leaf": True, "root": "IN6"},
+          {"frames": [{"k": 6}], "error": "multi", "root": "IN7"}]
 CHILDSETS = [
     [],
     [{"id": 20, "description": True}],
@@ -310,6 +313,7 @@ CHILDSETS = [
     [{"id": 27, "obj": True, "inner": {"frames": [{"k": 11}], "root": "CHILDINNER"}}],
     [{"stack": {"frames": [], "root": "STUBLEAF", "leaf": True}}, {"stack": {"frames": [], "root": "STUBERR", "error": True}}],
     [{"id": 28, "description": True, "inner": {"frames": [], "leaf": True, "error": True, "root": "CHILDINNER2"}}],
+    [{"stack": {"frames": [{"k": 8}], "root": "TASKMULTIERR", "error": "multi"}}, {"id": 29, "description": True}],
 ]
 
 
@@ -354,7 +358,7 @@ def part2(depth):
         for cs in itertools.product(ctxsets, repeat=nframes):
             for hides in itertools.product((False, True), repeat=nframes):
                 for leaf in (False, True):
-                    for error in (False, True):
+                    for error in (False, True, "multi"):
                         frames = [{"k": i, "hide": hides[i], "contexts": cs[i]} for i in range(nframes)]
                         yield {"frames": frames, "leaf": leaf, "error": error, "root": "ROOT2" if (nframes + leaf) % 2 else None}
 
